@@ -478,8 +478,9 @@ func (e *Enc) appendCall(v *ssa.Call, c *ssa.CallCommon) {
 	r := e.newRef(q("arr." + v.Name()))
 	cont := e.declare(q("cont."+v.Name()), "(Array Int "+es+")")
 	// copy of s
-	e.assume(fmt.Sprintf("(forall ((i Int)) (! (=> (and (<= 0 i) (< i (s_len %s))) (= (select %s i) (select (select %s (s_arr %s)) (idx %s i)))) :pattern ((select %s i))))", s, cont, old, s, s, cont))
+	e.assume(fmt.Sprintf("(forall ((i Int)) (! (=> (and (<= 0 i) (< i (s_len %s))) (= (select %s i) (select (select %s (s_arr %s)) (addi (s_off %s) i)))) :pattern ((select %s i))))", s, cont, old, s, s, cont))
 	var tlen string
+	var varargElems []string
 	t := c.Args[1]
 	if bt, ok := t.Type().Underlying().(*types.Basic); ok && bt.Info()&types.IsString != 0 {
 		// append([]byte, string...)
@@ -489,13 +490,27 @@ func (e *Enc) appendCall(v *ssa.Call, c *ssa.CallCommon) {
 		for i, el := range elems {
 			e.assume(fmt.Sprintf("(= (select %s (+ (s_len %s) %d)) %s)", cont, s, i, el))
 		}
+		varargElems = elems
 	} else {
 		tv := e.val(t)
 		tlen = "(s_len " + tv + ")"
-		e.assume(fmt.Sprintf("(forall ((j Int)) (! (=> (and (<= (s_len %s) j) (< j (+ (s_len %s) (s_len %s)))) (= (select %s j) (select (select %s (s_arr %s)) (idx %s (- j (s_len %s)))))) :pattern ((select %s j))))", s, s, tv, cont, old, tv, tv, s, cont))
+		e.assume(fmt.Sprintf("(forall ((j Int)) (! (=> (and (<= (s_len %s) j) (< j (+ (s_len %s) (s_len %s)))) (= (select %s j) (select (select %s (s_arr %s)) (addi (s_off %s) (- j (s_len %s)))))) :pattern ((select %s j))))", s, s, tv, cont, old, tv, tv, s, cont))
 	}
 	e.storeRef(h, r, cont)
 	e.defVal(v, fmt.Sprintf("(mk_slice %s 0 (+ (s_len %s) %s))", r, s, tlen))
+	// the copied prefix in the shape contracts use for result[i] and s[i], triggered from either side
+	{
+		rv := e.val(v)
+		lhs := fmt.Sprintf("(select (select %s (s_arr %s)) (addi (s_off %s) i))", e.H(h), rv, rv)
+		rhs := fmt.Sprintf("(select (select %s (s_arr %s)) (addi (s_off %s) i))", old, s, s)
+		e.assume(fmt.Sprintf("(forall ((i Int)) (! (=> (and (<= 0 i) (< i (s_len %s))) (= %s %s)) :pattern (%s) :pattern (%s)))", s, lhs, rhs, lhs, rhs))
+	}
+	// the appended elements once more, in exactly the shape contracts use for
+	// result[len(s)+i] (gives E-matching a trigger term for the new element)
+	for i, el := range varargElems {
+		rv := e.val(v)
+		e.assume(fmt.Sprintf("(= (select (select %s (s_arr %s)) (addi (s_off %s) (+ (s_len %s) %d))) %s)", e.H(h), rv, rv, s, i, el))
+	}
 }
 
 // varargsElems recognises  t = slice(new [N]T (varargs))[:]  with N constant
